@@ -42,16 +42,33 @@ RULE = ("one case = one call of Determinant / Invertible / Inverse (or a determi
         "the case is a call history; distinct by case text")
 LEVEL_TEXT = ("Theorems (Coq/MathComp, every size, every field): the model's Laplace determinant is the determinant (\\det), hence multiplicative, "
               "transpose-invariant, sign-changing under a row swap and the product of the diagonal for triangular matrices; Invertible <-> det != 0; "
-              "whenever Inverse returns X then X*M = 1 and M*X = 1; a singular or non-square matrix exits; see evidence.coverage.theorems. "
-              "NOT a theorem: the floating-point accuracy clause (c*n*kappa*eps) - it is checked in S4 against the exact rational inverse and "
-              "determinant of the double-valued input. Call histories on one object: for every arithmetic the model's answer depends on the current "
-              "entries only (theorems C05_seq_*, C05_hist_*), also when the caller writes through references to rows / entries taken earlier (C05_href_*: such a write is the indexed write, the answer is the one for the current entries); that the implementation has no other state is checked by correspondence and by the S4 clause "
+              "whenever Inverse returns X then X*M = 1 and M*X = 1; a singular or non-square matrix exits; with the code's pivoting rule (real field) "
+              "Inverse returns for every matrix with det != 0 (C05_inverse_complete); see evidence.coverage.theorems. "
+              "Rounding, Determinant (C05_det_rounding_error, every size N, every matrix, by induction over the recursion with a fold_left loop invariant): in ANY "
+              "arithmetic whose + - * obey the standard model fl(x op y) = (x op y)(1+d), |d| <= u, the model's Determinant returns a value within "
+              "((1+u)^e(N) - 1) * perm|M| of det M, e(1)=0, e(2)=2, e(N)=e(N-1)+N+2 <= N^2, perm|M| = sum over permutations of prod |m_i,s(i)| "
+              "(C05_det_le_perm, C05_perm_expand_row: Laplace expansion of the permanent, proved here); for the property's sizes 1..7 and u <= 2^-7 this is "
+              "<= 64*u*perm|M| (C05_det_rounding_error_le7) = the a-priori slack DET_SLACK of the S4 clause 'lu-reference', and (1+u)^k - 1 <= ku/(1-ku) "
+              "(C05_gamma_bound); Invertible() tests the computed determinant, so 'reported singular' implies |det M| <= E*perm|M| and an exactly singular "
+              "matrix gives a computed determinant of at most E*perm|M| - possibly non-zero, which is known finding K-C05-1 (C05_invertible_rounding). The premise that IEEE double arithmetic obeys the standard model with u = 2^-53 (no overflow/underflow in the evaluation) is "
+              "a hypothesis of these theorems, not proved; the S4 clause adds an explicit underflow term. "
+              "Orthogonal() (the library's own caller of the Invertible()/Inverse() gate): answer true => M^T M = 1 = M M^T for every pivoting rule "
+              "(C05_orthogonal_sound), non-square => false, and with the code's pivoting rule it never exits on a square matrix and decides M^T M = 1 "
+              "(C05_orthogonal_iff). "
+              "NOT a theorem: the floating-point accuracy clause for Inverse (c*n*kappa*eps, backward stability of Gauss-Jordan with partial pivoting) - it is "
+              "checked in S4 against the exact rational inverse of the double-valued input; likewise Orthogonal() in floating point is only compared with the model. "
+              "Call histories on one object: for every arithmetic the model's answer depends on the current "
+              "entries only (theorems C05_seq_*, C05_hist_*), also when the caller writes through references to rows / entries taken earlier (C05_href_*: such a write is the indexed write, the answer is the one for the current entries); "
+              "in exact arithmetic, after any history, M += B / M -= B gives det(A +- B) (C05_seq_det_after_update), std::swap(M[i], M[j]) flips the sign of Determinant() and "
+              "keeps Invertible() (C05_seq_det_after_swap), M[i][j] = v gives det A + (v - a_ij) cofactor_ij (C05_seq_det_after_set); "
+              "that the implementation has no other state is checked by correspondence and by the S4 clause "
               "'history' (object's answer = answer of a new object with the same entries, bit for bit). Known findings K-C05-1/-2 (see "
-              "known_findings.d/C05.json) are properties of floating-point evaluation, outside the exact-arithmetic theorems. "
+              "known_findings.d/C05.json) are properties of floating-point evaluation (overflow / underflow, i.e. outside the standard-model premise), outside the theorems. "
               "The Gallina model is extracted and run against libphysica on every run (bit-identical).")
-LEVEL_NOTE = ("Coq 8.16.1 + MathComp 1.15, axiom-free; hand-written model (coq/C05_Model.v, uses coq/C04_Model.v) tied by differential correspondence; "
-              "theorems are about exact field arithmetic (the exact values of the doubles); pivot choice (fabs, >) is left uninterpreted in the "
-              "soundness theorem, so it holds for every pivoting rule")
+LEVEL_NOTE = ("Coq 8.16.1 + MathComp 1.15 (+ algebra-tactics ring, mczify lia in the rounding proofs), axiom-free; hand-written model (coq/C05_Model.v, uses coq/C04_Model.v) tied by differential correspondence; "
+              "the algebraic theorems are about exact field arithmetic (the exact values of the doubles); pivot choice (fabs, >) is left uninterpreted in the "
+              "soundness theorems, so they hold for every pivoting rule; the rounding theorems instantiate the SAME model term with arbitrary rounded + - * over a real field "
+              "and carry the standard model of floating-point arithmetic (relative error u per operation, no overflow/underflow) as an explicit hypothesis")
 TOL = (1e-9, 0.0)
 TRUSTED = ["accuracy reference: exact rational Gauss-Jordan in Python fractions.Fraction (checks/C05.py)"]
 
